@@ -47,6 +47,8 @@ pub trait MatFam<L: Leaf>: 'static {
     fn rm_clone_from(dst: &mut Self::RM, src: &Self::RM);
     fn rm_map_lines<G: FnMut(Self::Line) -> Self::Line>(m: Self::RM, g: G) -> Self::RM;
     fn rm_map<G: FnMut(L) -> L>(m: Self::RM, g: G) -> Self::RM;
+    fn rm_map2<G: FnMut(L, L) -> L>(m: Self::RM, o: Self::RM, g: G) -> Self::RM;
+    fn rm_diagonal(m: Self::RM) -> Self::Line;
 
     // real vek code, column-major type
     fn cm_from_flat(f: Self::Flat, by_cols: bool) -> Self::CM;
@@ -69,6 +71,8 @@ pub trait MatFam<L: Leaf>: 'static {
     fn cm_clone_from(dst: &mut Self::CM, src: &Self::CM);
     fn cm_map_lines<G: FnMut(Self::Line) -> Self::Line>(m: Self::CM, g: G) -> Self::CM;
     fn cm_map<G: FnMut(L) -> L>(m: Self::CM, g: G) -> Self::CM;
+    fn cm_map2<G: FnMut(L, L) -> L>(m: Self::CM, o: Self::CM, g: G) -> Self::CM;
+    fn cm_diagonal(m: Self::CM) -> Self::Line;
 
     /// truncating conversions to the smaller matrix types (`Mat3::from(Mat4)`, `Mat2::from(Mat4)`,
     /// `Mat2::from(Mat3)`; no bound on the element type): how many this size has
@@ -189,6 +193,8 @@ macro_rules! matfam {
             fn rm_clone_from(dst: &mut Self::RM, src: &Self::RM) { dst.clone_from(src) }
             fn rm_map_lines<G: FnMut(Self::Line) -> Self::Line>(m: Self::RM, g: G) -> Self::RM { m.map_rows(g) }
             fn rm_map<G: FnMut(L) -> L>(m: Self::RM, g: G) -> Self::RM { m.map(g) }
+            fn rm_map2<G: FnMut(L, L) -> L>(m: Self::RM, o: Self::RM, g: G) -> Self::RM { m.map2(o, g) }
+            fn rm_diagonal(m: Self::RM) -> Self::Line { m.diagonal() }
 
             fn cm_from_flat(f: Self::Flat, by_cols: bool) -> Self::CM {
                 if by_cols { Self::CM::from_col_array(f) } else { Self::CM::from_row_array(f) }
@@ -225,6 +231,8 @@ macro_rules! matfam {
             fn cm_clone_from(dst: &mut Self::CM, src: &Self::CM) { dst.clone_from(src) }
             fn cm_map_lines<G: FnMut(Self::Line) -> Self::Line>(m: Self::CM, g: G) -> Self::CM { m.map_cols(g) }
             fn cm_map<G: FnMut(L) -> L>(m: Self::CM, g: G) -> Self::CM { m.map(g) }
+            fn cm_map2<G: FnMut(L, L) -> L>(m: Self::CM, o: Self::CM, g: G) -> Self::CM { m.map2(o, g) }
+            fn cm_diagonal(m: Self::CM) -> Self::Line { m.diagonal() }
 
             const SHRINKS: usize = 0 $(+ { let _ = <$S as MatFam<L>>::N; 1 })*;
             #[allow(unused_assignments, unused_mut, unused_variables, unreachable_code)]
@@ -854,6 +862,59 @@ impl<F: MatFam<L>, L: Leaf> MatExec<F, L> {
                 }
                 true
             }
+            MDiagonal => {
+                if !matches!(self.form, MForm::RM(_) | MForm::CM(_)) {
+                    return false;
+                }
+                st.probes[P_MAT_SHRINK] += 1;
+                let mut keep: Vec<u32> = Vec::with_capacity(n);
+                let mut cut: Vec<u32> = Vec::new();
+                for i in 0..n {
+                    for j in 0..n {
+                        let id = self.grid[i * n + j];
+                        if i == j {
+                            keep.push(id);
+                        } else {
+                            tok::set_owner(id, OWN_DOOMED);
+                            cut.push(id);
+                        }
+                    }
+                }
+                let form = std::mem::replace(&mut self.form, MForm::Gone);
+                self.grid.clear();
+                let r = guard_nopanic("diagonal()", m(OWN_DOOMED), 0, move || match form {
+                    MForm::RM(mm) => F::rm_diagonal(mm),
+                    MForm::CM(mm) => F::cm_diagonal(mm),
+                    _ => unreachable!(),
+                });
+                if let Some(line) = r {
+                    let g = line.grp();
+                    let got: Vec<u32> = g.iter().collect();
+                    if got != keep {
+                        tok::raise(V5_ORDER, format!("diagonal(): the result holds ids {:?}, the diagonal is {:?}", got, keep));
+                        std::mem::forget(line);
+                        return true;
+                    }
+                    for id in &cut {
+                        if !tok::gone(*id) {
+                            tok::raise(V7_LEAK, format!("diagonal(): id {} lies off the diagonal and was not destroyed", id));
+                            std::mem::forget(line);
+                            return true;
+                        }
+                    }
+                    for id in &keep {
+                        tok::set_owner(*id, OWN_DOOMED);
+                    }
+                    let _ = guard_nopanic("drop of the diagonal vector", m(OWN_DOOMED), 0, move || drop(line));
+                    for id in &keep {
+                        if !tok::gone(*id) {
+                            tok::raise(V7_LEAK, format!("drop of the vector diagonal() returned: id {} was not dropped", id));
+                            return true;
+                        }
+                    }
+                }
+                true
+            }
             MShrink => {
                 if F::SHRINKS == 0 || !matches!(self.form, MForm::RM(_) | MForm::CM(_)) {
                     return false;
@@ -1059,16 +1120,40 @@ impl<F: MatFam<L>, L: Leaf> MatExec<F, L> {
                     return false;
                 }
                 st.probes[P_MAT_MAP_LINES] += 1;
-                let per_elem = op.a & 1 == 1;
-                let what = if per_elem { "Mat::map" } else { "map_rows / map_cols" };
+                let per_elem = op.a % 3 == 1;
+                let two = op.a % 3 == 2;
+                let what = if per_elem { "Mat::map" } else if two { "Mat::map2" } else { "map_rows / map_cols" };
                 if op.f > 0 {
                     st.fault_cfg[F_CLOSURE_PANIC] += 1;
                 }
+                // map2: a second matrix of fresh elements, which the closure destroys
+                let mut other_ids: Vec<u32> = Vec::new();
+                let other: Option<MForm<F, L>> = if two {
+                    let toks: Vec<L> = (0..(n * n) as u32).map(|p| L::mk(700 + p, OWN_DOOMED)).collect();
+                    st.elements_created += (n * n) as u64;
+                    other_ids = toks.iter().map(|t| t.lid()).collect();
+                    Some(match &form {
+                        MForm::RM(_) => MForm::RM(F::rm_new(F::flat_from_vec(toks))),
+                        _ => MForm::CM(F::cm_new(F::flat_from_vec(toks))),
+                    })
+                } else {
+                    None
+                };
                 let mut w = Watch::new(op.f);
                 let (r, _) = {
                     let w = &mut w;
-                    guard(if op.f > 0 { m(OWN_MAIN) } else { 0 }, 0, None, move || match form {
-                        MForm::RM(mm) => MForm::<F, L>::RM(if per_elem {
+                    guard(m(OWN_DOOMED) | if op.f > 0 { m(OWN_MAIN) } else { 0 }, 0, None, move || match (form, other) {
+                        (MForm::RM(mm), Some(MForm::RM(oo))) => MForm::<F, L>::RM(F::rm_map2(mm, oo, |t, u| {
+                            w.hit(Grp::one(t.lid()));
+                            drop(u);
+                            t
+                        })),
+                        (MForm::CM(mm), Some(MForm::CM(oo))) => MForm::<F, L>::CM(F::cm_map2(mm, oo, |t, u| {
+                            w.hit(Grp::one(t.lid()));
+                            drop(u);
+                            t
+                        })),
+                        (MForm::RM(mm), _) => MForm::<F, L>::RM(if per_elem {
                             F::rm_map(mm, |t| {
                                 w.hit(Grp::one(t.lid()));
                                 t
@@ -1079,7 +1164,7 @@ impl<F: MatFam<L>, L: Leaf> MatExec<F, L> {
                                 l
                             })
                         }),
-                        MForm::CM(mm) => MForm::<F, L>::CM(if per_elem {
+                        (MForm::CM(mm), _) => MForm::<F, L>::CM(if per_elem {
                             F::cm_map(mm, |t| {
                                 w.hit(Grp::one(t.lid()));
                                 t
@@ -1093,6 +1178,11 @@ impl<F: MatFam<L>, L: Leaf> MatExec<F, L> {
                         _ => unreachable!(),
                     })
                 };
+                for id in &other_ids {
+                    if !tok::gone(*id) && !tok::has_violation() {
+                        tok::raise(V7_LEAK, format!("{}: element id {} of the second operand was not destroyed", what, id));
+                    }
+                }
                 match r {
                     Ok(form) => {
                         self.form = form;
